@@ -576,3 +576,96 @@ def run(repo: Path, out: Path) -> dict:
     body += "end Gen.MockEdges\n"
     write_if_changed(out / "MockEdges.lean", body)
     return {"ok": err is None, **({"error": err} if err else {}), **info}
+
+
+# ====================================================================== T9b: parameter forwarding
+def _forwarding(repo: Path) -> dict:
+    """signature of create_dummy_in_mem_geff, and the keyword arguments of the forwarding calls in
+    create_mock_geff / create_simple_* / create_empty_geff (expression text via ast.unparse)."""
+    tree = ast.parse((repo / SRC).read_text())
+    fns = {n.name: n for n in tree.body if isinstance(n, ast.FunctionDef)}
+
+    def params(fn):
+        a = fn.args
+        if a.vararg or a.kwarg or a.posonlyargs or a.kwonlyargs:
+            raise Unsupported(f"{fn.name}: only plain parameters are supported")
+        return [x.arg for x in a.args]
+
+    def single_call(fn, callee):
+        calls = [n for n in ast.walk(fn) if isinstance(n, ast.Call) and isinstance(n.func, ast.Name) and n.func.id == callee]
+        if len(calls) != 1:
+            raise Unsupported(f"{fn.name}: expected exactly one call of {callee}, found {len(calls)}")
+        c = calls[0]
+        if c.args or any(k.arg is None for k in c.keywords):
+            raise Unsupported(f"{fn.name}: positional / ** arguments in the call of {callee}")
+        return [(k.arg, ast.unparse(k.value)) for k in c.keywords]
+
+    need = [FUNC, "create_mock_geff", "create_simple_2d_geff", "create_simple_3d_geff",
+            "create_simple_temporal_geff", "create_empty_geff"]
+    for n in need:
+        if n not in fns:
+            raise Unsupported(f"function {n} not found")
+    def defaults(fn):
+        a = fn.args
+        names = [x.arg for x in a.args]
+        ds = a.defaults
+        return [(n, ast.unparse(d)) for n, d in zip(names[len(names) - len(ds):], ds)]
+
+    out = {"inner": params(fns[FUNC]), "mock": params(fns["create_mock_geff"]),
+           "inner_defaults": defaults(fns[FUNC]), "mock_defaults": defaults(fns["create_mock_geff"]),
+           "mock_call": single_call(fns["create_mock_geff"], FUNC), "wrappers": []}
+    for w in need[2:]:
+        out["wrappers"].append((w, params(fns[w]), single_call(fns[w], "create_mock_geff")))
+    return out
+
+
+def _lean_pairs(l):
+    from harness.translate import lean_str
+    return "[" + ", ".join(f"({lean_str(a)}, {lean_str(b)})" for a, b in l) + "]"
+
+
+def _lean_strs(l):
+    from harness.translate import lean_str
+    return "[" + ", ".join(lean_str(a) for a in l) + "]"
+
+
+def _run_forwarding(repo: Path, out: Path) -> dict:
+    from harness.translate import lean_str, write_if_changed
+
+    err, fw = None, None
+    try:
+        fw = _forwarding(repo)
+    except Unsupported as e:
+        err = f"unsupported: {e}"
+    except Exception as e:  # noqa: BLE001
+        err = f"{type(e).__name__}: {e}"
+    body = HEADER + "namespace Gen.MockForward\n"
+    body += f"def translationOk : Bool := {'true' if err is None else 'false'}\n"
+    if fw is None:
+        fw = {"inner": [], "mock": [], "mock_call": [], "wrappers": [], "inner_defaults": [], "mock_defaults": []}
+    body += f"/-- parameters of `{FUNC}` -/\ndef innerParams : List String := {_lean_strs(fw['inner'])}\n"
+    body += f"/-- parameters of `create_mock_geff` -/\ndef mockParams : List String := {_lean_strs(fw['mock'])}\n"
+    body += f"/-- default values of the two signatures -/\ndef innerDefaults : List (String × String) := {_lean_pairs(fw['inner_defaults'])}\n"
+    body += f"def mockDefaults : List (String × String) := {_lean_pairs(fw['mock_defaults'])}\n"
+    body += ("/-- keyword arguments (keyword, expression) of the call of the inner generator in `create_mock_geff` -/\n"
+             f"def mockCall : List (String × String) := {_lean_pairs(fw['mock_call'])}\n")
+    body += "/-- (wrapper, its parameters, keyword arguments of its call of `create_mock_geff`) -/\n"
+    body += "def wrappers : List (String × List String × List (String × String)) := [\n"
+    body += ",\n".join(f"  ({lean_str(w)}, {_lean_strs(ps)}, {_lean_pairs(kw)})" for w, ps, kw in fw["wrappers"])
+    body += "]\nend Gen.MockForward\n"
+    write_if_changed(out / "MockForward.lean", body)
+    return {"ok": err is None, **({"error": err} if err else {})}
+
+
+_run_edges = run
+
+
+def run(repo: Path, out: Path) -> dict:  # noqa: F811
+    a = _run_edges(repo, out)
+    b = _run_forwarding(repo, out)
+    res = dict(a)
+    res["forwarding"] = b
+    if not b["ok"]:
+        res["ok"] = False
+        res["error"] = (res.get("error", "") + " | forwarding: " + b.get("error", "")).strip(" |")
+    return res
